@@ -2,7 +2,9 @@
 \* trace) are appended by the driver: a substitution "Clients <- TraceClients" works but is re-evaluated
 \* at every use (quadratic).
 CONSTANTS
+  Cap = 512
   Swapped = FALSE
+  KeepLen = FALSE
 INIT Init
 NEXT Next
 INVARIANT ModelSane
